@@ -153,6 +153,14 @@ func reference(text []byte, b dnsfix.Backend) dnsfix.Dump {
 }
 
 var seq int
+var lastPath string
+
+func storePath(dir string, sc scen) string {
+	if sc.set.B == dnsfix.CDB {
+		return filepath.Join(dir, fmt.Sprintf("s%d.cdb", seq))
+	}
+	return filepath.Join(dir, fmt.Sprintf("s%d.rdb", seq))
+}
 
 func main() {
 	runtime.GOMAXPROCS(1)
@@ -195,6 +203,13 @@ func main() {
 		outcomes := map[string]bool{}
 		st := vsched.Explore(vsched.Config{Bound: bound, MaxSteps: 100000}, func() (func(), func(*vsched.Result)) {
 			seq++
+			// the store path of the previous execution: normally removed by its check, but an execution that was
+			// pruned or cut never reaches its check (millions of them in the thorough tier: the scratch file
+			// system ran out of inodes)
+			if lastPath != "" {
+				os.RemoveAll(lastPath)
+			}
+			lastPath = storePath(dir, sc)
 			if sc.set.B != dnsfix.CDB {
 				if err := rdb.ClearSharedForVerif(); err != nil {
 					vlib.Infra("clearing the shared RocksDB: %v", err)
@@ -313,7 +328,7 @@ func firstLine(s string) string {
 func compile(dir string, sc scen) (string, error) {
 	switch sc.set.B {
 	case dnsfix.CDB:
-		p := filepath.Join(dir, fmt.Sprintf("s%d.cdb", seq))
+		p := storePath(dir, sc)
 		w, err := gocdb.NewWriter(p)
 		if err != nil {
 			vlib.Infra("cdb writer: %v", err)
@@ -325,7 +340,7 @@ func compile(dir string, sc scen) (string, error) {
 		}
 		return p, err
 	default:
-		p := filepath.Join(dir, fmt.Sprintf("s%d.rdb", seq))
+		p := storePath(dir, sc)
 		if err := os.MkdirAll(p, 0o755); err != nil {
 			vlib.Infra("%v", err)
 		}
